@@ -56,7 +56,7 @@ def plane_of(node):
     return None
 
 def configs(tier, builds=('K1',)):
-    depths = (8, 10, 16) if tier == 'quick' else tuple(range(8, 17))
+    depths = tuple(range(8, 17))         # every depth in both tiers: a depth is a concrete configuration value, a change that bites at 12 or 14 bit only must not wait for the thorough tier
     for b in builds:
         for m in STD_MATRICES:
             for full in (False, True):
